@@ -29,12 +29,18 @@ EventLoopThread::~EventLoopThread()
 {
   exiting_ = true;
   MUDUO_VERIF_POINT("EventLoopThread::dtor:entry", this);
-  if (loop_ != NULL) // not 100% race-free, eg. threadFunc could be running callback_.
   {
-    // still a tiny chance to call destructed object, if threadFunc exits just now.
-    // but when EventLoopThread destructs, usually programming is exiting anyway.
-    MUDUO_VERIF_POINT("EventLoopThread::dtor:beforeQuit", this);
-    loop_->quit();
+    // threadFunc clears loop_ under mutex_ before the loop object dies, so the
+    // loop cannot be destroyed between the test and the end of quit()
+    MutexLockGuard lock(mutex_);
+    if (loop_ != NULL)
+    {
+      MUDUO_VERIF_POINT("EventLoopThread::dtor:beforeQuit", this);
+      loop_->quit();
+    }
+  }
+  if (thread_.started())
+  {
     thread_.join();
   }
 }
